@@ -128,6 +128,10 @@ def input_class(c, p=None):
     fam = c["fam"]
     if fam == "sec":            # <name>|<type>|<key states>|<order>|<data nil>
         return "|".join(c["shape"].split("|")[:3])
+    if fam == "sub":            # the sequence of VirtualServer shapes itself
+        return c["shape"]
+    if fam == "tref":           # <watch>|<targetRef namespace>|<order>
+        return "|".join(c["shape"].split("|")[:2])
     if fam == "adv":
         is_logdst = c["shape"].startswith("ann|" + LOGDST_ANN + "|") or (c["shape"].startswith("crd|pol-waf|") and c.get("kind", "").endswith(".logDest"))
         if is_logdst:
@@ -288,6 +292,42 @@ def judge_secrets(run, cases):
     run.cov["secret_shapes"] = {"shapes": len(cases), "admissible": n_adm}
 
 
+def judge_subcontrollers(run, cases):
+    """family sub: the real cert-manager / external-dns SyncFnFor over every 3-step sequence of VirtualServer shapes of one instance; S only"""
+    n_adm = 0
+    for c in cases:
+        if c.get("error"):
+            run.failing({"kind": "harness-case-error", "fam": "sub"}, [c], "the harness could not run the sequence %s: %s" % (c.get("shape"), c["error"][:300]),
+                        theorem="correspondence harness c17", found_input=False)
+            continue
+        adm = bool(c.get("admitted"))
+        n_adm += adm
+        run.count_case({"fam": "sub", "shape": c["shape"]}, adm)
+        if adm and c.get("panics"):
+            p = c["panics"][0]
+            sig = panic_sig(c, p)
+            sig["class"] = "shape-sequence"     # grouped by entry point and site; the replay carries the sequences
+            run.failing(sig, [c], "a sequence of admissible versions of one VirtualServer (%s) makes %s panic in %s: %s"
+                        % (p["combo"], p["stage"], p["site"], p["msg"][:120]), theorem="S: no panic on admissible objects (sub-controller shape sequences)")
+    run.cov["subcontroller_sequences"] = {"sequences": len(cases), "admissible": n_adm, "steps": sum(c.get("tried", 0) for c in cases)}
+
+
+def judge_targetref(run, cases):
+    """family tref: EndpointSlices whose ready endpoint has no / a watched / an empty / an unwatched targetRef namespace, with and without -watch-namespace; S only"""
+    for c in cases:
+        if c.get("error"):
+            run.failing({"kind": "harness-case-error", "fam": "tref"}, [c], "the harness could not run targetRef case %s: %s" % (c.get("shape"), c["error"][:300]),
+                        theorem="correspondence harness c17", found_input=False)
+            continue
+        adm = bool(c.get("admitted"))
+        run.count_case({"fam": "tref", "shape": c["shape"]}, adm)
+        if adm and c.get("panics"):
+            p = c["panics"][0]
+            run.failing(panic_sig(c, p), [c], "an admissible EndpointSlice (case %s: watch-namespace | targetRef.namespace | order) makes the real code panic (%s) in %s: %s"
+                        % (c["shape"], p["combo"], p["site"], p["msg"][:120]), theorem="S: no panic on admissible objects (EndpointSlice targetRef namespaces)")
+    run.cov["endpointslice_targetref_cases"] = len(cases)
+
+
 def judge_random(run, cases):
     n_adm = 0
     n_acc = 0
@@ -325,11 +365,13 @@ def check(run):
     if rc != 0:
         raise C.TieBroken("c17 harness failed rc=%d: %s" % (rc, log[-1500:]))
     cases = C.read_jsonl(out)
-    shapes = [c for c in cases if c["fam"] not in ("rnd", "inv", "adv", "sec")]
+    shapes = [c for c in cases if c["fam"] not in ("rnd", "inv", "adv", "sec", "sub", "tref")]
     rnd = [c for c in cases if c["fam"] == "rnd"]
     judge_inventory(run, [c for c in cases if c["fam"] == "inv"])
     judge_adversarial(run, [c for c in cases if c["fam"] == "adv"])
     judge_secrets(run, [c for c in cases if c["fam"] == "sec"])
+    judge_subcontrollers(run, [c for c in cases if c["fam"] == "sub"])
+    judge_targetref(run, [c for c in cases if c["fam"] == "tref"])
     counts, roundtrip = model_counts()
     run.add_obligation(roundtrip, "Shapes.Cases.codes_roundtrip", "a shape code does not decode back to its shape")
     rows = evaluate(shapes, run.tier)
@@ -377,7 +419,7 @@ def replay(run, path):
     if rc != 0:
         raise C.TieBroken("c17 harness failed on replay: %s" % log[-1500:])
     cases = C.read_jsonl(out)
-    shapes = [c for c in cases if c["fam"] not in ("rnd", "inv", "adv", "sec")]
+    shapes = [c for c in cases if c["fam"] not in ("rnd", "inv", "adv", "sec", "sub", "tref")]
     rnd = [c for c in cases if c["fam"] == "rnd"]
     adv = [c for c in cases if c["fam"] == "adv"]
     sec = [c for c in cases if c["fam"] == "sec"]
@@ -396,3 +438,11 @@ def replay(run, path):
     for c in sec:
         print("replay secret shape %s: admitted=%s panics=%s" % (c["shape"], c.get("admitted"), json.dumps(c.get("panics", [])[:2])))
     judge_secrets(run, sec)
+    sub = [c for c in cases if c["fam"] == "sub"]
+    for c in sub:
+        print("replay sub-controller sequence %s: admitted=%s panics=%s" % (c["shape"], c.get("admitted"), json.dumps(c.get("panics", [])[:2])))
+    judge_subcontrollers(run, sub)
+    tref = [c for c in cases if c["fam"] == "tref"]
+    for c in tref:
+        print("replay targetRef case %s: admitted=%s panics=%s" % (c["shape"], c.get("admitted"), json.dumps(c.get("panics", [])[:2])))
+    judge_targetref(run, tref)
